@@ -28,7 +28,7 @@ MANIFEST = {
                   "not seconds): structured mutation fuzzing of all testdata files and boxes, and count/length-field inflation (0, 1, exact, "
                   "exact+1, 1024, 1025, 2^16, 2^22, 2^31-1, 2^31, 2^32-4, 2^32-1 clipped to the field width, the guard-boundary values (payload-d)/e and +1, all fields of a box jointly) of every count or length field of "
                   "34 box types under every version/flags combination that changes the per-entry size (incl. size 0), compact and "
-                  "large-size header, trailing bytes, both decode paths, box level and nested in a file, plus a catch-all (every registered "
+                  "large-size header, trailing bytes, both decode paths, box level and nested in a file (also lazy-mdat / ISM / start-on-moof options where the parent is moof, traf or mfra), plus a catch-all (every registered "
                   "box type, 32-bit word at each of the first offsets inflated), with per-input time and allocation budgets.",
     "level_note": "Trusted: Coq kernel, extraction, OCaml/Go glue, the shape renderer. The models are hand transcriptions tied to /repo "
                   "by the correspondence on generated inputs only; the prologue models count the bytes REQUESTED with make/append (Go's append "
